@@ -1036,6 +1036,15 @@ class Interp(Engine):
             return self.call_method(fn.recv, fn.name, args, kwargs, node, f)
         if isinstance(fn, SpecFn):
             return fn(*args)
+        if isinstance(fn, SEnum) and not kwargs and not any(_deep_sym(a) for a in args) and all(
+                isinstance(t, types.BuiltinFunctionType) and isinstance(getattr(t, "__self__", None), (str, bytes, int, tuple, frozenset)) for t in fn.table):
+            # the same method of an immutable builtin value for every table entry: evaluate entry-wise
+            def _one(t):
+                try:
+                    return t(*args)
+                except Exception as ex:
+                    raise Unsupported("method call on a table entry raised %r" % (ex,))
+            return fn.map(_one).collapse()
         if isinstance(fn, SEnum):
             # table of formatter functions indexed symbolically: results are text only
             self.assumed.add("functions selected by a symbolic table index (opcode_arg_fmt formatters) are pure and return text (opaque)")
@@ -1654,6 +1663,23 @@ def _m_dict(self, args, kwargs, node, f):
             d[k] = val
     d.update(kwargs)
     return d
+
+
+@model(dict.fromkeys)
+def _m_fromkeys(self, args, kwargs, node, f):
+    """dict.fromkeys(xs): only its key order (first occurrences) is modelled; equality of symbolic
+    elements is decided by forking"""
+    items = self.unpack_iter(args[0], None, node)
+    kept = []
+    for x in items:
+        dup = False
+        for y in kept:
+            if self.test(self.equal(x, y)):
+                dup = True
+                break
+        if not dup:
+            kept.append(x)
+    return HList(kept)
 
 
 @model(bool)
